@@ -287,3 +287,27 @@ free_step!(c08_free_step_o1, 1, 16, 16, 4);
 // @funcs Qcow2Dev::free_clusters (whole body) RefBlock::decrement
 // @stub alloc::fmt::format -> String::new()
 free_step!(c08_free_step_o6, 6, 16, 16, 4);
+
+// @harness c08_alloc_step_o4_allcb
+// @props C08 C03 C18
+// @tier thorough
+// @cost 900
+// @timeout 3000
+// @needs A1
+// @desc the 16-bit allocator step again with the cluster size symbolic over the whole supported range
+// @bounds as c08_alloc_step_o4, cluster_bits 9..=21 symbolic
+// @funcs Qcow2Dev::try_alloc_from_rb_slice (whole body)
+// @stub alloc::fmt::format -> String::new()
+alloc_step!(c08_alloc_step_o4_allcb, 4, 9, 21, 7);
+
+// @harness c08_free_step_o4_allcb
+// @props C08 C03 C18
+// @tier thorough
+// @cost 900
+// @timeout 3000
+// @needs A0
+// @desc the 16-bit free step again with the cluster size symbolic over the whole supported range
+// @bounds as c08_free_step_o4, cluster_bits 9..=21 symbolic
+// @funcs Qcow2Dev::free_clusters (whole body)
+// @stub alloc::fmt::format -> String::new()
+free_step!(c08_free_step_o4_allcb, 4, 9, 21, 4);
